@@ -31,6 +31,45 @@ theorem single_roundtrip (c : SingleCfg) (eff x δ : R) (n : Nat)
   have := decode_affine (tl := (0 : R)) hs he (x := x) (by simpa using hb)
   simpa [singleCoord, singleDecode1, encode] using this
 
+/-- **refinement that overshoots breaks the bound** (general form of F-C02b): when the keypoint sits
+exactly on its cell (`x·a = g·os`) any refinement offset larger than half a cell — which is what
+integral regression returns when its zero-padded patch crosses the map border — puts the decoded
+coordinate further than half a cell from the truth.  So the hypothesis `hδ` of `single_roundtrip`
+("the offset does not move away from the truth") cannot be dropped. -/
+theorem refined_overshoot_breaks_bound (c : SingleCfg) (eff x δ : R) (n : Nat)
+    (hs : 0 < c.scale.toR (Nat.cast : Nat → R)) (he : 0 < eff) (hos : 0 < (c.os : R))
+    (hq : x * (eff * c.scale.toR Nat.cast)
+            = ((nearest Nat.cast c.os (x * (eff * c.scale.toR Nat.cast)) (n - 1) * c.os : Nat) : R))
+    (hδ : 1 / 2 < δ) :
+    (c.os : R) / 2 / (c.scale.toR Nat.cast * eff)
+      < |singleCoord Nat.cast c (eff * c.scale.toR Nat.cast) eff n x δ - x| := by
+  have hse : 0 < c.scale.toR (Nat.cast : Nat → R) * eff := mul_pos hs he
+  simp only [singleCoord, singleDecode1, encode]
+  generalize nearest Nat.cast c.os (x * (eff * c.scale.toR Nat.cast)) (n - 1) = g at hq ⊢
+  have hx : x = ((g : R) * (c.os : R)) / (c.scale.toR Nat.cast * eff) := by
+    rw [eq_div_iff (ne_of_gt hse)]
+    push_cast at hq
+    rw [← hq]; ring
+  have e1 : ((g : R) + δ) * (c.os : R) / c.scale.toR Nat.cast / eff - x
+      = δ * (c.os : R) / (c.scale.toR Nat.cast * eff) := by
+    rw [hx]; field_simp; ring
+  rw [e1, abs_of_pos (div_pos (mul_pos (by linarith) hos) hse), div_div, div_lt_div_iff₀ (by positivity) hse]
+  nlinarith [mul_pos hos hse]
+
+/-- **F-C02b, the recorded witness** (32×32 frame, input scale 1, output stride 2, integral
+refinement, keypoint at x = 0.25 → cell 0, whose 5×5 patch crosses the left border): the measured
+refinement offset is ≈ +0.766 cell (49/64; the zero padding removes the left half of the bump); with
+the model's decode chain the returned coordinate is 1.531 px — 1.28 px = 0.64 cell from the truth, beyond
+the half-cell bound of 1 px, and the offset moves AWAY from the truth (hypothesis `hδ` fails). -/
+theorem single_roundtrip_border_counterexample :
+    let c : SingleCfg := { scale := ⟨1, 1⟩, os := 2, maxStride := 2, maxH := none, maxW := none }
+    let cast : Nat → Rat := fun n => (n : Rat)
+    nearest cast c.os ((1 / 4 : Rat) * (1 * c.scale.toR cast)) 15 = 0 ∧
+    singleCoord cast c (1 * c.scale.toR cast) 1 16 (1 / 4) (49 / 64) = 49 / 32 ∧
+    (c.os : Rat) / 2 / (c.scale.toR cast * 1) < 49 / 32 - 1 / 4 ∧
+    ¬ ((0 + 49 / 64 : Rat) * 2 - 1 / 4 ≤ 1 / 4 - 0 * 2) := by
+  decide +kernel
+
 /-- no refinement (`δ = 0`) satisfies the refinement hypothesis -/
 theorem no_refinement_ok (g os : Nat) (q : R) :
     |((g : R) + 0) * (os : R) - q| ≤ |((g * os : Nat) : R) - q| := by
